@@ -25,7 +25,7 @@ def main():
             continue
         rc, out = sh("cargo test --offline --lib 2>&1 | grep 'test result'", cwd=WT)
         res = {"id": mid, "meta": json.load(open(os.path.join(d, "meta.json"))), "suite": out.strip(), "checks": {}}
-        env = "VERIF_REPO=%s VERIF_BUILD_TAG=_h%s VERIF_SKIP_PROOFS=1 VERIF_NO_SEARCH=1 VERIF_EVIDENCE_DIR=/tmp/harm_ev_%s VERIF_REPLAY_DIR=/tmp/harm_rp_%s " % (WT, W, W, W)
+        env = "VERIF_REPO=%s VERIF_BUILD_TAG=_h%s VERIF_SKIP_PROOFS=1 VERIF_EVIDENCE_DIR=/tmp/harm_ev_%s VERIF_REPLAY_DIR=/tmp/harm_rp_%s " % (WT, W, W, W)
         alarms = []
         for p in PROPS:
             t = time.time()
